@@ -468,6 +468,9 @@ func genIDValue(r *rand.Rand) jv {
 	}
 	switch id := genID(r).(type) {
 	case string:
+		if r.Intn(2) == 0 {
+			return jSpelled(r, id) // as a foreign peer may spell it: \/ , \uXXXX, surrogate pairs …
+		}
 		return jStr(id)
 	case *big.Int:
 		return jBig(id.String())
@@ -523,7 +526,11 @@ func genWire(r *rand.Rand) jv {
 		} else {
 			switch x := m.id.(type) {
 			case string:
-				add("id", jStr(x))
+				if r.Intn(3) == 0 {
+					add("id", jSpelled(r, x))
+				} else {
+					add("id", jStr(x))
+				}
 			case *big.Int:
 				add("id", jBig(x.String()))
 			}
@@ -553,6 +560,10 @@ func genWire(r *rand.Rand) jv {
 	w := jObj(mem...)
 	if r.Intn(100) < 30 {
 		w = mutateWire(r, w)
+	}
+	// the text level: half of the wire values carry strings / member names in a foreign spelling
+	if r.Intn(2) == 0 {
+		w = spellJ(r, w, []int{15, 50, 100}[r.Intn(3)])
 	}
 	return w
 }
@@ -708,6 +719,9 @@ func msgTags(op, obs string) []string {
 	if obs == "panic" {
 		tags = append(tags, "panic")
 	}
+	if kind == "decenc" || kind == "casedec" || kind == "idecho" {
+		tags = append(tags, spellTags(op)...)
+	}
 	return tags
 }
 
@@ -720,6 +734,8 @@ func idClass(t string) string {
 			return "string-empty"
 		}
 		return "string"
+	case strings.HasPrefix(t, "q"):
+		return "string-spelled"
 	case strings.HasPrefix(t, "d"):
 		return "fractional-or-exponent"
 	case strings.HasPrefix(t, "i"):
